@@ -23,6 +23,7 @@ import (
 
 	"verif/dsu"
 	"verif/harness"
+	"verif/oracle"
 )
 
 const perCase = 40 // inputs per case
@@ -68,8 +69,34 @@ func setup(c *harness.Ctx) {
 			}
 		}
 	}
+	// small well-formed inputs of our own making: indexes with 0, 1, 2 and 9 chunks (the index of an empty blob is
+	// perfectly valid), archives of an empty directory, of one file, of a nested tree
+	for _, n := range []int{0, 1, 2, 9} {
+		ci := oracle.Caibx{Flags: oracle.FlagSHA512256 | 0x8000000000000000, Min: 16, Avg: 64, Max: 256}
+		for k := 0; k < n; k++ {
+			it := oracle.CaibxItem{End: uint64(k+1) * 100}
+			it.ID[0] = byte(k + 1)
+			ci.Items = append(ci.Items, it)
+		}
+		corpus = append(corpus, ci.Encode())
+		corpusNames = append(corpusNames, fmt.Sprintf("own-index-%d-chunks", n))
+	}
+	gb := u64(16+24, desync.CaFormatGoodbye, 0, 40, desync.CaFormatGoodbyeTailMarker)
+	cat := func(parts ...[]byte) []byte { return bytes.Join(parts, nil) }
+	corpus = append(corpus, cat(validEntry(0040755), gb))
+	corpusNames = append(corpusNames, "own-archive-empty-dir")
+	corpus = append(corpus, cat(validEntry(0100644), u64(16+5, desync.CaFormatPayload), []byte("hello")))
+	corpusNames = append(corpusNames, "own-archive-single-file")
+	corpus = append(corpus, cat(validEntry(0040755), filename("d"), validEntry(0040755), filename("f"), validEntry(0100644), u64(16+5, desync.CaFormatPayload), []byte("hello"), gb, filename("l"), validEntry(0120777), u64(16+2, desync.CaFormatSymlink), []byte("x\x00"), gb))
+	corpusNames = append(corpusNames, "own-archive-nested")
 	log.SetOutput(io.Discard)
 	desync.Log.SetOutput(io.Discard)
+}
+
+// genValid returns a well-formed input unchanged: "arbitrary input" includes the valid corner cases.
+func genValid(rng *rand.Rand) ([]byte, string) {
+	k := rng.Intn(len(corpus))
+	return corpus[k], "valid|" + corpusNames[k]
 }
 
 var elemTypes = []uint64{desync.CaFormatEntry, desync.CaFormatUser, desync.CaFormatGroup, desync.CaFormatXAttr, desync.CaFormatACLUser, desync.CaFormatACLGroup, desync.CaFormatACLGroupObj,
@@ -247,7 +274,9 @@ func run(c *harness.Ctx, i int) {
 	for k := 0; k < perCase; k++ {
 		var in []byte
 		var gen string
-		switch rng.Intn(8) {
+		switch rng.Intn(9) {
+		case 8:
+			in, gen = genValid(rng)
 		case 0, 1, 2:
 			in, gen = genElement(rng)
 		case 3:
